@@ -26,8 +26,8 @@ Svc(svcs, reqTags, pars, carry, scope) ==
 ParamOf(refs) ==       \* 0 refs: a literal; 1 ref: "%q%"; more: "%q%-%r%"
   IF refs = {} THEN ALit("int", "7")
   ELSE IF Cardinality(refs) = 1 THEN ARef(CHOOSE q \in refs : TRUE)
-  ELSE APat([i \in 1..(2 * Cardinality(refs)) |->
-              IF i % 2 = 1 THEN CRef(SortedSeq(refs)[(i + 1) \div 2]) ELSE CText("-")])
+  ELSE APat([i \in 1..(2 * Cardinality(refs)) |->                    \* references in DESCENDING name order: "%p10%-%p1%-"
+              IF i % 2 = 1 THEN CRef(SortedSeq(refs)[Cardinality(refs) + 1 - ((i + 1) \div 2)]) ELSE CText("-")])
 
 -----------------------------------------------------------------------------
 (* A: n services, every set of @-edges (self loops included), every scope assignment.    *)
@@ -71,7 +71,7 @@ FamD(refs) ==
       d1 \in SUBSET S2, d2 \in SUBSET S2, dt1 \in BOOLEAN, dt2 \in BOOLEAN}
 
 (* P: 3 parameters, every digraph of references, plus a service using p1.                *)
-P3 == {"p1", "p2", "p3"}
+P3 == {"p1", "p10", "p2"}          \* p1 is a substring of p10
 FamP(sp) ==
   {[EmptyCfg EXCEPT !.params = [p \in P3 |-> ParamOf(refs[p])],
                     !.services = [s \in {"s1"} |-> Svc({}, {}, sp, {}, Unset)]] :
@@ -117,6 +117,17 @@ FamMx(w12, maxBad) ==
                                     /\ Cardinality({i \in 1..8 : f[i] # "ok"}) <= maxBad}, dd \in {"none"} \cup Tgt}
 
 
+(* K: every argument POSITION of one service (constructor argument, first and second argument of a call that is followed   *)
+(*    by another call, the argument of that call, a field) holds a literal, @s1 or @s2; s2 may refer back.                  *)
+KArg(x) == CASE x = "lit" -> ALit("int", "1") [] OTHER -> ASvc(x)
+FamK(back) ==
+  {[EmptyCfg EXCEPT !.services =
+      (   "s1" :> [CtorSvc("NewA", <<KArg(w[1])>>) EXCEPT
+                     !.calls = <<Call("SetX", <<KArg(w[2]), KArg(w[3])>>, FALSE), Call("SetY", <<KArg(w[4])>>, FALSE)>>,
+                     !.fields = <<Field("F1", KArg(w[5]))>>]
+       @@ "s2" :> CtorSvc("NewB", IF back THEN <<ASvc("s1")>> ELSE <<>>))] :
+      w \in [1..5 -> {"lit", "s1", "s2"}]}
+
 (* N: which names are DECLARED varies, down to no parameters / a single service at all.  *)
 FamN(D) ==
   {[EmptyCfg EXCEPT
@@ -158,6 +169,7 @@ Seeds ==
     [] Family = "M"  -> [1..2 -> Tgt]
     [] Family = "Mq" -> [1..2 -> Tgt]
     [] Family = "N"  -> SUBSET {"p1", "p2"}
+    [] Family = "K"  -> BOOLEAN
     [] Family = "X"  -> BOOLEAN
 
 Configs(seed) ==
@@ -172,6 +184,7 @@ Configs(seed) ==
     [] Family = "M"  -> FamMx(seed, 8)
     [] Family = "Mq" -> FamMx(seed, 2)
     [] Family = "N"  -> FamN(seed)
+    [] Family = "K"  -> FamK(seed)
     [] Family = "X"  -> FamX(seed)
 
 FlagSets == IF Family \in {"M", "Mq", "N", "X"} THEN AllFlags ELSE {NoFlags}
@@ -179,7 +192,8 @@ FlagSets == IF Family \in {"M", "Mq", "N", "X"} THEN AllFlags ELSE {NoFlags}
 ExtCases == IF Family = "ext" THEN ndJsonDeserialize("ext_cases.ndjson") ELSE <<>>
 
 Init == IF Family = "ext"
-        THEN \E i \in 1..Len(ExtCases) : sd = i /\ stage = 1 /\ cfg = ExtCases[i].cfg /\ flags = NoFlags
+        THEN \E i \in 1..Len(ExtCases) : \E fl \in (IF ExtCases[i].allflags THEN AllFlags ELSE {NoFlags}) :
+                sd = i /\ stage = 1 /\ cfg = ExtCases[i].cfg /\ flags = fl
         ELSE sd \in Seeds /\ stage = 0 /\ cfg = EmptyCfg /\ flags = NoFlags
 Next == /\ stage = 0
         /\ stage' = 1
